@@ -27,6 +27,15 @@ def cli(args, timeout=120, env=None, cwd=None, hashseed=None):
     args = list(args)
     h = zlib.crc32(' '.join(a for a in args if not a.startswith('/'))
                    .encode('utf-8'))
+    if (h // 3) % 2 == 0:
+        # utf-8 is the documented default of --src-enc and --dest-enc: in
+        # half of the runs it is left to the default
+        for opt in ('--src-enc', '--dest-enc'):
+            if opt in args and args[args.index(opt) + 1:args.index(opt) + 2] \
+                    == ['utf-8']:
+                k = args.index(opt)
+                del args[k:k + 2]
+                ENVIRONMENTS['an encoding left to the default'] += 1
     if hashseed is None:
         hashseed = (0, 1, 2, 3, 4711)[h % 5]
     e['PYTHONHASHSEED'] = str(hashseed)
@@ -34,6 +43,10 @@ def cli(args, timeout=120, env=None, cwd=None, hashseed=None):
         e.update(LC_ALL='C', LANG='C', PYTHONCOERCECLOCALE='0',
                  PYTHONUTF8='0')
         ENVIRONMENTS['C locale without UTF-8 mode'] += 1
+        if (h // 80) % 2 == 0:
+            # ... and standard streams that can carry ASCII only
+            del e['PYTHONIOENCODING']
+            ENVIRONMENTS['ASCII-only standard streams'] += 1
     paths = [a for a in args if a.startswith('/')]
     dirs = set(os.path.dirname(a) for a in paths)
     if cwd is None and len(dirs) == 1 and (h // 20) % 3 == 0:
